@@ -30,7 +30,10 @@ class Task:
 
 
 class Sched:
-    def __init__(self, vm, max_steps=200):
+    def __init__(self, vm, max_steps=200, preempt_bound=None):
+        self.preempt_bound = preempt_bound      # context bound: at most this many switches away from a task that could continue
+        self.preemptions = 0
+        self.last = None
         self.vm = vm
         self.tasks = []
         self.back = threading.Semaphore(0)
@@ -86,8 +89,14 @@ class Sched:
                 live = [t for t in self.tasks if not t.done and not (t.blocked is not None and _is_locked(t.blocked))]
                 if not live:
                     raise RuntimeError('deadlock: every unfinished task waits for a lock')
-                i = self.vm.pick('sched', len(live)) if len(live) > 1 else 0
-                pick = live[i]
+                if self.preempt_bound is not None and self.last in live and self.preemptions >= self.preempt_bound:
+                    pick = self.last                      # the bound is used up: the running task continues until it ends or blocks
+                else:
+                    i = self.vm.pick('sched', len(live)) if len(live) > 1 else 0
+                    pick = live[i]
+                    if self.last in live and pick is not self.last:
+                        self.preemptions += 1
+                self.last = pick
                 self.trace.append(self.tasks.index(pick))
                 if not pick.started:
                     pick.started = True
